@@ -39,6 +39,12 @@ def run_iban(shard, mon, S):
     for c_, sp_ in sorted(table.items()):
         by_spec.setdefault(sp_["bban_spec"], []).append(c_)
     compat = {c_: [o for o in by_spec[table[c_]["bban_spec"]] if o != c_] for c_ in table}
+    from vf.props.c12 import build_iban_around  # noqa: PLC0415
+    from vf.ref import lookup  # noqa: PLC0415
+
+    listed: dict = {}
+    for (c_, k_) in sorted(lookup.by_key()):
+        listed.setdefault(c_, []).append(k_)
     for cc in shard["countries"]:
         spec = table[cc]
         pos = data.positions(spec)
@@ -55,6 +61,13 @@ def run_iban(shard, mon, S):
             mon.viol("fields_overlap", {"country": cc, "positions": {k: list(v) for k, v in pos.items()}}, "disjoint", "overlap")
         rng = env.rng("C11", cc)
         texts = gen.valid_ibans(cc, spec, rng, SIZES[shard["tier"]]["per_country"])
+        # IBANs of listed banks (the registry must not leak into the decomposition)
+        lk = listed.get(cc, [])
+        for code in (rng.sample(lk, min(len(lk), 25 if shard["tier"] == "quick" else 400))):
+            tb = build_iban_around(cc, code, table, rng)
+            if tb:
+                texts.append(tb)
+                mon.tally("listed_bank_ibans_decomposed")
         # every *accepted* IBAN must decompose and re-assemble: also offer the mod-97 aliases of the
         # computed digits and neighbouring digits; whatever the library accepts is decomposed too
         extra = []
@@ -118,6 +131,21 @@ def run_iban(shard, mon, S):
                     mon.viol("cross_country_reassembly_keeps_foreign_bban_country", {**w, "other": other}, other, getattr(o4.value.bban, "country_code", None))
             if len(ib) != len(s) or ib.length != len(s) or ib.compact != s:
                 mon.viol("length_or_compact_wrong", w, len(s), [ib.length, ib.compact])
+        # the same decomposition after the country has been used for generation (also for countries that
+        # publish no positions: their components stay empty)
+        from random import Random  # noqa: PLC0415
+
+        for f in (lambda: S.IBAN.generate(cc, bank_code="12", account_code="345"), lambda: S.BBAN.from_components(cc, bank_code="1", account_code="2", branch_code="3"),
+                  lambda: S.IBAN.random(cc, random=Random(7)), lambda: S.BBAN.random(cc, random=Random(8), use_registry=False)):
+            observe(f)
+        o9 = observe(S.IBAN, texts[0])
+        if o9.ok:
+            for comp in COMPONENTS:
+                want = texts[0][4:][pos[comp][0] : pos[comp][1]] if comp in pos else ""
+                g9 = observe(getattr, o9.value, comp)
+                if not g9.ok or g9.value != want:
+                    mon.viol(f"component_changes_after_generation_calls:{comp}" + ("" if comp in pos else ":absent_field"), {"iban": texts[0], "component": comp}, want, g9.brief())
+            mon.tally("decomposition_rechecked_after_generation")
         mon.sample({"iban": text, "published_positions": {k: list(v) for k, v in pos.items()}})
         mon.tally("countries")
 
